@@ -115,7 +115,7 @@ class ClassRegistry:
                 ax.append(p(self.ids[D]) == z3.BoolVal(issubclass(D, C)))
             for k in range(0, smt.FIRST_USER_CLS):
                 pass
-            ax.append(z3.ForAll([c], z3.Implies(z3.And(c >= 0, c < smt.FIRST_USER_CLS), z3.Not(p(c))), patterns=[p(c)]))
+            ax.append(z3.ForAll([c], z3.Implies(c < smt.FIRST_USER_CLS, z3.Not(p(c))), patterns=[p(c)]))
         for a in range(len(classes)):
             for b in range(len(classes)):
                 if a == b:
